@@ -63,6 +63,9 @@ var c13tests = []struct {
 }{
 	{"mode=emacs", func(m, t, a string) bool { return m == "emacs" }}, {"mode=vi", func(m, t, a string) bool { return m == "vi" }},
 	{"term=xterm", func(m, t, a string) bool { return t == "xterm" }}, {"term=rxvt", func(m, t, a string) bool { return t == "rxvt" }},
+	// the names of terminals and modes are compared as written (a terminfo name can have capitals: Eterm)
+	{"term=Eterm", func(m, t, a string) bool { return t == "Eterm" }}, {"term=eterm", func(m, t, a string) bool { return t == "eterm" }},
+	{"term=XTERM", func(m, t, a string) bool { return t == "XTERM" }}, {"mode=Vi", func(m, t, a string) bool { return m == "Vi" }},
 	{"Bash", func(m, t, a string) bool { return a == "bash" }}, {"other", func(m, t, a string) bool { return a == "other" }},
 }
 
@@ -225,7 +228,7 @@ func c13spec(ns []*c13node, on bool, mode, term, app string, c *c13cfg, nestedIn
 }
 
 func c13(r *rand.Rand, n int) {
-	modes, terms, apps := []string{"emacs", "vi"}, []string{"xterm", "rxvt"}, []string{"bash", "other"}
+	modes, terms, apps := []string{"emacs", "vi"}, []string{"xterm", "rxvt", "Eterm"}, []string{"bash", "other"}
 	for i := 0; i < n; i++ {
 		var prog []*c13node
 		var st [2]int
@@ -246,7 +249,7 @@ func c13(r *rand.Rand, n int) {
 			lines = l2
 		}
 		text := strings.Join(lines, "\n") + "\n"
-		mode, term, app := modes[r.Intn(2)], terms[r.Intn(2)], apps[r.Intn(2)]
+		mode, term, app := modes[r.Intn(2)], terms[r.Intn(3)], apps[r.Intn(2)]
 		want := &c13cfg{km: "emacs", binds: map[string]map[string]inputrc.Bind{}, vars: map[string]interface{}{}}
 		nested := false
 		c13spec(prog, true, mode, term, app, want, &nested)
